@@ -76,7 +76,24 @@ def _same_navigation(check_cls: str, n_skips: int) -> bool:
     if check_cls == "CheckPreprocessorProtection" and len(b) >= 3:
         # its third skip in source order belongs to the #endif branch; the one in front of the macro name is the last
         b = b[:2] + [b[-1]]
-    return len(a) >= n_skips and len(b) >= n_skips and a[:n_skips] == b[:n_skips]
+    if not (len(a) >= n_skips and len(b) >= n_skips and a[:n_skips - 1] == b[:n_skips - 1]):
+        return False
+    # in front of the argument: what the primary skips -- its own last skip plus the leading skips of the directive's
+    # handler (and of the helper that validates the argument) -- must be what the check skips there
+    def flags(sig):
+        return {k for k, v in sig if v == "True"}
+    prim_last = flags(a[n_skips - 1])
+    handlers = {"CheckPreprocessorDefine": ["check_define"], "CheckPreprocessorInclude": ["check_include", "_check_path"],
+                "CheckPreprocessorProtection": ["check_ifndef", "_just_identifier"]}.get(check_cls, [])
+    for hname in handlers:
+        h = prog.method("IsPreprocessorStatement", hname)
+        if h is None:
+            continue
+        first_test = min([n.lineno for n in walk_fn(h.node) if isinstance(n, ast.Call) and text(n.func) == "context.check_token"]
+                         or [10 ** 9])
+        for sig in _skip_signature(h, first_test):
+            prim_last |= flags(sig)
+    return prim_last == flags(b[n_skips - 1])
 
 
 def _define_raises_unless_rparen() -> bool:
